@@ -116,13 +116,6 @@ func (mbox *Mailbox) appendLiteral(r imap.LiteralReader, options *imap.AppendOpt
 	return mbox.appendBytes(buf.Bytes(), options), nil
 }
 
-func (mbox *Mailbox) copyMsg(msg *message) *imap.AppendData {
-	return mbox.appendBytes(msg.buf, &imap.AppendOptions{
-		Time:  msg.t,
-		Flags: msg.flagList(),
-	})
-}
-
 func (mbox *Mailbox) appendBytes(buf []byte, options *imap.AppendOptions) *imap.AppendData {
 	msg := &message{
 		flags: make(map[imap.Flag]struct{}),
